@@ -78,6 +78,15 @@ def generate(streams, tier):
                     if ref.prob_evidence(t) > 0.02:
                         ev = t
                         break
+            fams = [v for v in range(n) if len(world["parents"][v]) >= 2]
+            if k == "lw" and fams and rw.random() < 0.4:
+                # a whole family observed (the child and every parent): the child's term of the weight is a constant of the evidence
+                v = rw.choice(fams)
+                for _try in range(20):
+                    t = {u: rw.randrange(world["card"][u]) for u in [v] + list(world["parents"][v])}
+                    if ref.prob_evidence(t) > 1e-6:
+                        ev = t
+                        break
             op["ev"] = {str(a): b for a, b in ev.items()}
         if k == "forward" and n >= 2 and rw.random() < 0.3:
             cols = rw.sample(range(n), rw.randint(1, n - 1))
